@@ -44,6 +44,15 @@ class Lane(LaneBase):
         m = 300 if tier == 'quick' else 3000
         for i in range(m):
             yield {'kind': 'conv', 'edges': self.rand_lagged_edges(rng, violating=True), 'via': rng.choice(['cg', 'dict'])}
+        # the lagged-matrix constructor: an entry under a POSITIVE key asks for a directed edge from the future into the
+        # present and must be refused; under keys <= 0 the built graph satisfies the time invariant
+        for i in range(60 if tier == 'quick' else 600):
+            nv = rng.choice((1, 2, 2, 3))
+            keys = sorted(set(rng.sample([-3, -2, -1, 0, 1, 2, 3], rng.randint(1, 3))))
+            mats = {}
+            for kk in keys:
+                mats[str(kk)] = [[int(rng.random() < 0.4) if (kk != 0 or a < b) else 0 for b in range(nv)] for a in range(nv)]
+            yield {'kind': 'mats', 'mats': mats, 'vars': ['a', 'b', 'c'][:nv], 'minimal': rng.random() < 0.5}
         k = 400 if tier == 'quick' else 4000
         yield {'kind': 'topo', 'nodes': [], 'edges': []}
         yield {'kind': 'topo', 'nodes': ['X'], 'edges': []}
@@ -190,6 +199,33 @@ class Lane(LaneBase):
                 oracle.append(f'conversion via {case["via"]} changed the number of edges')
         return {'lines': [], 'impl': [], 'oracle': oracle, 'nontrivial': violating, 'key': repr(case['edges']) + case['via'],
                 'tags': ['conv:' + ('violating' if violating else 'ok')]}
+
+    def run_mats(self, case):
+        import numpy
+        from cai_causal_graph import TimeSeriesCausalGraph
+        mats = {int(k): numpy.array(v) for k, v in case['mats'].items()}
+        against = any(k > 0 and numpy.any(m) for k, m in mats.items())
+        oracle = []
+        try:
+            g = TimeSeriesCausalGraph.from_adjacency_matrices(mats, list(case['vars']), construct_minimal=case['minimal'])
+            err = None
+        except Exception as e:  # noqa: BLE001
+            g, err = None, type(e).__name__
+        if against and err != 'ValueError':
+            oracle.append(f'from_adjacency_matrices with an entry under a positive key (a directed edge from the future into the '
+                          f'present) gave {err or "a graph"} instead of ValueError: {case["mats"]}')
+        if g is not None:
+            bad = time_invariant(g)
+            if bad:
+                oracle.append('graph built by from_adjacency_matrices: ' + bad[0])
+            if not against:
+                want = sum(int(numpy.sum(m)) for m in mats.values())
+                have = len(g.get_edges())
+                if not case['minimal'] and have > want:
+                    oracle.append(f'from_adjacency_matrices built {have} edges from {want} entries')
+        return {'lines': [], 'impl': [], 'oracle': oracle, 'nontrivial': against or g is not None,
+                'key': repr((case['mats'], case['vars'], case['minimal'])),
+                'tags': ['mats:' + ('against-time' if against else (err or 'ok'))]}
 
     def run_wide(self, case):
         g = impl.new_graph('ts')
